@@ -845,6 +845,11 @@ func swarmCfg(r *rng, prop string) RunCfg {
 	if prop == "C11" && r.pct(35) {
 		c.FPYieldPct = []int{2, 10, 30}[r.n(3)]
 	}
+	if prop == "C09" && r.pct(50) {
+		// "on every repetition": the clock is one more thing that differs between two
+		// repetitions (the library reads none today; a change may)
+		c.ClockVaryPct = []int{5, 30, 80}[r.n(3)]
+	}
 	return c
 }
 
